@@ -21,7 +21,7 @@ func init() {
 		},
 		N: func(tier string) int {
 			if tier == "quick" {
-				return 20000
+				return 60000
 			}
 			return 1000000
 		},
